@@ -95,6 +95,14 @@ def hot_sizes():
     return [int(x) for x in v.split(',') if x.strip()][:4]
 
 
+def big_sizes():
+    """the NEW literals of the tree under test that are too large to enumerate (> MAX_HOT), ascending, at most 8: a block
+    length / buffer size somebody introduced.  A property whose entry points are vectorised may still afford a few inputs
+    with a feature planted exactly at K-1, K, K+1, 2K when the model side works on a compressed (run-length) encoding."""
+    v = os.environ.get('VERIF_HOT_BIG', '')
+    return [int(x) for x in v.split(',') if x.strip()][:8]
+
+
 def changed():
     return os.environ.get('VERIF_SRC_CHANGED', '') == '1'
 
